@@ -57,6 +57,36 @@ var propertyClauses = map[string]clauseInfo{
 			"that processEmphasis keeps its search bounds valid under deletions, selects closers/openers as the procedure prescribes, and that wrap/remove build the corresponding tree",
 		},
 	},
+	"C01": {
+		decided: []string{
+			"padNulls: every byte at index k >= start moves to k + 2*(number of NULs in [start,k)), each NUL becomes three zero bytes, the prefix is kept; without a NUL the result is the argument and no byte of any array is written; when the result does not fit the capacity it is a fresh array (so the caller's buffer is not written)",
+			"readline: the bytes already buffered are never changed; once an error is latched the buffer is not touched at all",
+			"makeRoot: Source is the first n bytes of the buffer (same array, capacity clipped), StartLine/StartOffset are the parser's counters, EndOffset = StartOffset + unpadded length of those bytes, and the counters advance by exactly that range (line count of the bytes, unpadded length)",
+			"NextBlock: every run of bytes cut off inside the blank-line loop is space/tab/CR/LF only and one line long; the block handed out starts exactly (unpadded length, line endings) of all bytes cut after the parser's previous position; EndOffset >= StartOffset and the parser's offset equals EndOffset afterwards, so ranges of successive blocks are ordered and do not overlap",
+			"Parse / NewBlockParser: the line counter starts at 1 and the offset at 0; in Parse end-of-input is latched from the start, so the buffer is never refilled or rewritten",
+			"lineCount, nullCount, unpaddedNullLength, isBlankLine: exact contracts",
+		},
+		notDecided: []string{
+			"assumption A-C01-1: a closed top-level block ends inside the scanned part of the buffer at a line boundary (set by the block-structure code, which is abstracted in NextBlock)",
+			"assumption A-C01-2: when the last pending block is handed out, the rest of the line in progress is blank (the first cut of NextBlock drops it unexamined)",
+			"fillNulls has only a frame contract: that each aligned zero triple becomes EF BF BD (Source equals the input with NUL replaced by U+FFFD) is not decided",
+			"the composition over a whole document (a ghost model of the input stream relating every block to absolute offsets) is argued from the per-call contracts, not generated",
+		},
+	},
+	"C08": {
+		decided: []string{
+			"readline: where a line ends is a function of the buffered bytes alone (LF; CRLF; CR followed by an available non-LF byte; CR or end of data only when end-of-input is latched), hence independent of how the reader chunks the stream",
+			"readline: the reader is called only while no error is latched and through the parser's own reader; the latched error is never overwritten; bytes received are appended after the bytes already buffered, which are never changed; new bytes go through padNulls from the old length (incremental padding)",
+			"NextBlock: returns (nil, the latched error) exactly when readline reports no more data, and a non-nil block with a nil error otherwise; the latch is preserved",
+			"padNulls, makeRoot, NextBlock accounting: as for C01 (offsets and line numbers are the same function of the bytes in both modes)",
+			"Parse constructs the state NewBlockParser would reach after reading everything: same counters, end-of-input latched",
+		},
+		notDecided: []string{
+			"equality of the trees built in both modes is argued (lemma L-C08: everything outside readline reads only the buffer prefix, the pending blocks and the counters, and is deterministic), not generated",
+			"the streaming block-size limit (\"block too large\") is outside the property's quantifier",
+			"termination needs a reader that does not return (0, nil) forever",
+		},
+	},
 	"C07": {
 		decided: []string{
 			"escapeHTML: the appended region contains none of < > \" ' and every & in it starts one of the five entities it emits (all inputs, unbounded)",
